@@ -171,6 +171,7 @@ func main() {
 
 	// translate
 	computeFresh(decls)
+	computeRecvUsed(decls)
 	tr := map[string]*fnOut{}
 	globalsUsed := map[string]bool{}
 	for _, q := range order {
@@ -204,10 +205,10 @@ func main() {
 		fmt.Fprintf(&b, "Definition src_global_%s : list N := [\n  %s].\n\n", g, wrapList(v, 8))
 		gdefs = append(gdefs, fmt.Sprintf("(%s, vbytes src_global_%s)", coqStr(g), g))
 	}
-	fmt.Fprintf(&b, "(* error values: 0 = nil, 1 = an error that is none of the package's Error constants,\n   then the Error constants in order of declaration *)\n")
+	fmt.Fprintf(&b, "(* error values: 0 = nil, 1 = an error that is none of the package's Error constants,\n   2 = such an error for which os.IsTimeout holds, then the Error constants in order of declaration *)\n")
 	var ec []string
 	for i, n := range errNames {
-		ec = append(ec, fmt.Sprintf("(%s, %d)", coqStr(n), i+2))
+		ec = append(ec, fmt.Sprintf("(%s, %d)", coqStr(n), i+3))
 	}
 	fmt.Fprintf(&b, "Definition src_error_codes : list (string * N) := [\n  %s].\n\n", wrapList(ec, 3))
 	for _, q := range sorted {
@@ -400,6 +401,7 @@ type ftr struct {
 	structs  map[types.Object]map[string]int // struct-typed variable (receiver, *struct parameter, local struct) -> field -> slot
 	structOrder map[types.Object][]int        // the same slots in field order
 	readonly map[types.Object]bool           // struct parameters other than the receiver: fields may only be read
+	nilSlot  map[types.Object]int            // pointer-to-struct locals and results: slot of the nil flag
 	hoisted  map[*ast.CallExpr]int           // method call hoisted out of an expression -> temporary slot holding its result
 	pre      []string                        // statements to run before the statement being translated (hoisted calls)
 	names    []string              // slot -> name
@@ -466,11 +468,27 @@ func expandable(ty types.Type) (*types.Struct, bool, bool) {
 	return st, isPtr, true
 }
 
+// the struct behind a (pointer to a) struct type, whatever its fields
+func structOf(ty types.Type) (*types.Struct, bool, bool) {
+	isPtr := false
+	if pt, ok := ty.(*types.Pointer); ok {
+		ty = pt.Elem()
+		isPtr = true
+	}
+	st, ok := ty.Underlying().(*types.Struct)
+	return st, isPtr, ok
+}
+
+// one slot per field of basic / error / slice-of-basic type, in order; the
+// other fields (mutexes, loggers, interfaces ...) get none and are opaque
 func (t *ftr) expandStruct(obj types.Object, name string, st *types.Struct) []int {
 	m := map[string]int{}
 	var order []int
 	for i := 0; i < st.NumFields(); i++ {
 		f := st.Field(i)
+		if _, ok := zeroVal(f.Type()); !ok {
+			continue
+		}
 		s := t.newSlot(nil, name+"."+f.Name(), f.Type())
 		m[f.Name()] = s
 		order = append(order, s)
@@ -478,6 +496,51 @@ func (t *ftr) expandStruct(obj types.Object, name string, st *types.Struct) []in
 	t.structs[obj] = m
 	t.structOrder[obj] = order
 	return order
+}
+
+// a pointer-to-struct local or result: a nil flag (true = nil) followed by the fields
+func (t *ftr) expandPtr(obj types.Object, name string, st *types.Struct) []int {
+	n := len(t.names)
+	t.names = append(t.names, name+".nil")
+	t.zero = append(t.zero, "VB true")
+	t.nilSlot[obj] = n
+	return append([]int{n}, t.expandStruct(obj, name, st)...)
+}
+
+// does the body of a method mention its receiver at all
+var recvUsed = map[string]bool{}
+
+func computeRecvUsed(decls map[string]*ast.FuncDecl) {
+	for q, fd := range decls {
+		if fd.Recv == nil || len(fd.Recv.List) != 1 || len(fd.Recv.List[0].Names) != 1 {
+			continue
+		}
+		robj := info.Defs[fd.Recv.List[0].Names[0]]
+		if robj == nil {
+			continue
+		}
+		ast.Inspect(fd.Body, func(n ast.Node) bool {
+			if id, ok := n.(*ast.Ident); ok && info.Uses[id] == robj {
+				recvUsed[q] = true
+			}
+			return true
+		})
+	}
+}
+
+// number of values a type contributes to an argument / result list
+func flatTypes(ty types.Type) ([]types.Type, bool, bool) {
+	if _, ok := zeroVal(ty); ok {
+		return []types.Type{ty}, false, true
+	}
+	if st, isPtr, ok := expandable(ty); ok {
+		var r []types.Type
+		for i := 0; i < st.NumFields(); i++ {
+			r = append(r, st.Field(i).Type())
+		}
+		return r, isPtr, true
+	}
+	return nil, false, false
 }
 
 func isErrorType(ty types.Type) bool {
@@ -494,8 +557,8 @@ func isErrorType(ty types.Type) bool {
 }
 
 // error values are numbers: 0 = nil, 1 = some error that is not one of the
-// package's Error constants (fmt.Errorf, errors.New), 2.. = the Error
-// constants in order of declaration
+// package's Error constants (fmt.Errorf, errors.New), 2 = such an error for
+// which os.IsTimeout holds, 3.. = the Error constants in order of declaration
 var errNames []string
 
 func initErrCodes() {
@@ -519,7 +582,7 @@ func initErrCodes() {
 func errCode(name string) (int, bool) {
 	for i, n := range errNames {
 		if n == name {
-			return i + 2, true
+			return i + 3, true
 		}
 	}
 	return 0, false
@@ -553,17 +616,18 @@ func isFloat(ty types.Type) bool {
 
 func translateFn(q string, fd *ast.FuncDecl, globalsUsed map[string]bool) *fnOut {
 	t := &ftr{slots: map[types.Object]int{}, structs: map[types.Object]map[string]int{}, structOrder: map[types.Object][]int{},
-		readonly: map[types.Object]bool{}, hoisted: map[*ast.CallExpr]int{}, globals: globalsUsed, calls: map[string]bool{}}
+		readonly: map[types.Object]bool{}, nilSlot: map[types.Object]int{}, hoisted: map[*ast.CallExpr]int{}, globals: globalsUsed, calls: map[string]bool{}}
 	out := &fnOut{name: q}
-	// receiver: a struct whose fields are all of basic or slice-of-basic type is
-	// expanded into one slot per field (returned as outs when the receiver is
-	// a pointer); any other receiver gets no slot and must not be used
+	// receiver: a method that mentions its receiver gets one slot per field of
+	// basic / slice-of-basic type (returned as outs when the receiver is a
+	// pointer); the other fields are opaque. A method that never mentions its
+	// receiver gets no slot for it.
 	if fd.Recv != nil && len(fd.Recv.List) == 1 {
 		r := fd.Recv.List[0]
 		if len(r.Names) == 1 {
 			obj := info.Defs[r.Names[0]]
 			if obj != nil {
-				if st, isPtr, ok := expandable(obj.Type()); ok {
+				if st, isPtr, ok := structOf(obj.Type()); ok && recvUsed[q] {
 					for _, s := range t.expandStruct(obj, r.Names[0].Name, st) {
 						if isPtr {
 							out.outs = append(out.outs, s)
@@ -600,7 +664,13 @@ func translateFn(q string, fd *ast.FuncDecl, globalsUsed map[string]bool) *fnOut
 		for _, p := range fd.Type.Results.List {
 			for _, n := range p.Names {
 				obj := info.Defs[n]
-				out.results = append(out.results, t.newSlot(obj, n.Name, obj.Type()))
+				if _, simple := zeroVal(obj.Type()); simple {
+					out.results = append(out.results, t.newSlot(obj, n.Name, obj.Type()))
+				} else if st, isPtr, ok := expandable(obj.Type()); ok && isPtr {
+					out.results = append(out.results, t.expandPtr(obj, n.Name, st)...)
+				} else {
+					out.results = append(out.results, t.newSlot(obj, n.Name, obj.Type()))
+				}
 			}
 			if len(p.Names) == 0 {
 				// unnamed result: only explicit returns give it a value
@@ -620,6 +690,8 @@ func translateFn(q string, fd *ast.FuncDecl, globalsUsed map[string]bool) *fnOut
 							t.newSlot(obj, id.Name, v.Type())
 						} else if st, isPtr, ok := expandable(v.Type()); ok && !isPtr {
 							t.expandStruct(obj, id.Name, st)
+						} else if st, isPtr, ok := expandable(v.Type()); ok && isPtr {
+							t.expandPtr(obj, id.Name, st)
 						} else {
 							t.newSlot(obj, id.Name, v.Type())
 						}
@@ -720,21 +792,161 @@ func (t *ftr) lval(e ast.Expr) (string, bool) {
 		}
 	case *ast.SelectorExpr:
 		if s, ok := t.fieldSlot(x); ok {
-			if obj, _ := t.structVar(x.X); obj != nil && t.readonly[obj] {
+			obj, _ := t.structVar(x.X)
+			if obj != nil && t.readonly[obj] {
 				return "", false
+			}
+			if ns, ok := t.nilSlot[obj]; ok {
+				// storing through a nil pointer panics
+				t.pre = append(t.pre, fmt.Sprintf("SSet LBlank (EDeref (EVar %d) (EN 0))", ns))
 			}
 			return fmt.Sprintf("LVar %d", s), true
 		}
 	case *ast.IndexExpr:
-		if id, ok := x.X.(*ast.Ident); ok {
-			if s, ok := t.slotOf(id); ok {
-				if _, isSlice := info.Types[x.X].Type.Underlying().(*types.Slice); isSlice {
-					return fmt.Sprintf("LIndex %d (%s)", s, t.expr(x.Index)), true
+		if s, ok := t.sliceSlot(x.X); ok {
+			if sel, isSel := x.X.(*ast.SelectorExpr); isSel {
+				if obj, _ := t.structVar(sel.X); obj != nil {
+					if t.readonly[obj] {
+						return "", false
+					}
+					if ns, ok := t.nilSlot[obj]; ok {
+						t.pre = append(t.pre, fmt.Sprintf("SSet LBlank (EDeref (EVar %d) (EN 0))", ns))
+					}
 				}
 			}
+			return fmt.Sprintf("LIndex %d (%s)", s, t.expr(x.Index)), true
 		}
 	}
 	return "", false
+}
+
+// the slot behind a slice-typed variable: a local / parameter, or a field of an expanded struct variable
+func (t *ftr) sliceSlot(e ast.Expr) (int, bool) {
+	tv, ok := info.Types[e]
+	if !ok {
+		return 0, false
+	}
+	if _, isSlice := tv.Type.Underlying().(*types.Slice); !isSlice {
+		return 0, false
+	}
+	switch x := e.(type) {
+	case *ast.ParenExpr:
+		return t.sliceSlot(x.X)
+	case *ast.Ident:
+		return t.slotOf(x)
+	case *ast.SelectorExpr:
+		return t.fieldSlot(x)
+	}
+	return 0, false
+}
+
+// the values an argument contributes to a call: itself, or the fields of an expanded struct variable
+func (t *ftr) flatArg(e ast.Expr) ([]string, bool) {
+	if obj, ok := t.structVar(e); ok {
+		order := t.structOrder[obj]
+		var r []string
+		for i, sl := range order {
+			if ns, hasNil := t.nilSlot[obj]; hasNil && i == 0 {
+				r = append(r, fmt.Sprintf("EDeref (EVar %d) (EVar %d)", ns, sl))
+			} else {
+				r = append(r, fmt.Sprintf("EVar %d", sl))
+			}
+		}
+		return r, true
+	}
+	if tv, ok := info.Types[e]; ok {
+		if _, simple := zeroVal(tv.Type); simple {
+			return []string{t.expr(e)}, true
+		}
+	}
+	return nil, false
+}
+
+// the destinations a left-hand side contributes to a multi-valued call
+func (t *ftr) flatDest(e ast.Expr) ([]string, bool) {
+	if obj, ok := t.structVar(e); ok {
+		if t.readonly[obj] {
+			return nil, false
+		}
+		var r []string
+		if ns, hasNil := t.nilSlot[obj]; hasNil {
+			r = append(r, fmt.Sprintf("LVar %d", ns))
+		}
+		return append(r, lvars(t.structOrder[obj])...), true
+	}
+	lv, ok := t.lval(e)
+	if !ok {
+		return nil, false
+	}
+	return []string{lv}, true
+}
+
+// calls that have no effect on the values computed: mutex operations and logging
+func (t *ftr) ignorable(c *ast.CallExpr) bool {
+	sel, ok := c.Fun.(*ast.SelectorExpr)
+	if !ok {
+		return false
+	}
+	rtv, ok := info.Types[sel.X]
+	if !ok {
+		return false
+	}
+	rt := rtv.Type
+	if p, isPtr := rt.(*types.Pointer); isPtr {
+		rt = p.Elem()
+	}
+	n, ok := rt.(*types.Named)
+	if !ok || n.Obj().Pkg() == nil {
+		return false
+	}
+	if n.Obj().Pkg().Path() == "sync" && n.Obj().Name() == "Mutex" && (sel.Sel.Name == "Lock" || sel.Sel.Name == "Unlock") {
+		return true
+	}
+	if n.Obj().Pkg() == pkg && n.Obj().Name() == "logger" {
+		for _, a := range c.Args {
+			if hasCall(a) {
+				return false
+			}
+		}
+		return true
+	}
+	return false
+}
+
+// a call through an opaque field of the receiver (an interface such as the
+// transport): an external function named <field>.<Method>, given a meaning only
+// by the hypotheses of the theorems
+func (t *ftr) oracleCall(c *ast.CallExpr) (string, bool) {
+	sel, ok := c.Fun.(*ast.SelectorExpr)
+	if !ok {
+		return "", false
+	}
+	inner, ok := sel.X.(*ast.SelectorExpr)
+	if !ok {
+		return "", false
+	}
+	id, ok := inner.X.(*ast.Ident)
+	if !ok {
+		return "", false
+	}
+	obj := info.Uses[id]
+	if obj == nil {
+		return "", false
+	}
+	if m, isStruct := t.structs[obj]; !isStruct || m == nil {
+		return "", false
+	}
+	if _, expanded := t.structs[obj][inner.Sel.Name]; expanded {
+		return "", false
+	}
+	tv, ok := info.Types[inner]
+	if !ok {
+		return "", false
+	}
+	if _, isIface := tv.Type.Underlying().(*types.Interface); !isIface {
+		return "", false
+	}
+	return inner.Sel.Name + "." + sel.Sel.Name, true
 }
 
 func (t *ftr) slotOf(id *ast.Ident) (int, bool) {
@@ -811,8 +1023,45 @@ func (t *ftr) methodCall(c *ast.CallExpr) (name string, recv []int, update bool,
 		return
 	}
 	name = named.Obj().Name() + "." + fn.Name()
-	recv = t.structOrder[obj]
+	if recvUsed[name] {
+		recv = t.structOrder[obj]
+	} else {
+		update = false
+	}
 	nres = sig.Results().Len()
+	ok = true
+	return
+}
+
+// translate a call statement / multi-valued call: callee name, flattened
+// arguments, receiver destinations
+func (t *ftr) callParts(c *ast.CallExpr) (name string, args []string, recvDests []string, ok bool) {
+	if n, recv, update, _, isM := t.methodCall(c); isM {
+		name = n
+		args = append(args, evars(recv)...)
+		if update {
+			recvDests = lvars(recv)
+		}
+		t.calls[name] = true
+	} else if n, isO := t.oracleCall(c); isO {
+		name = n
+	} else if id, isID := c.Fun.(*ast.Ident); isID {
+		fobj, isF := info.Uses[id].(*types.Func)
+		if !isF || fobj.Pkg() != pkg {
+			return
+		}
+		name = id.Name
+		t.calls[name] = true
+	} else {
+		return
+	}
+	for _, a := range c.Args {
+		fa, okA := t.flatArg(a)
+		if !okA {
+			return "", nil, nil, false
+		}
+		args = append(args, fa...)
+	}
 	ok = true
 	return
 }
@@ -871,7 +1120,11 @@ func (t *ftr) hoist(e ast.Expr) {
 	var args []string
 	args = append(args, evars(recv)...)
 	for _, a := range c.Args {
-		args = append(args, t.expr(a))
+		fa, okA := t.flatArg(a)
+		if !okA {
+			return
+		}
+		args = append(args, fa...)
 	}
 	var dests []string
 	if update {
@@ -924,24 +1177,33 @@ func (t *ftr) stmt1(s ast.Stmt) string {
 			}
 		}
 		if c, ok := x.X.(*ast.CallExpr); ok {
-			if name, recv, update, nres, ok := t.methodCall(c); ok {
-				var args []string
-				args = append(args, evars(recv)...)
-				for _, a := range c.Args {
-					args = append(args, t.expr(a))
+			if t.ignorable(c) {
+				return "SSkip"
+			}
+			if name, args, dests, ok := t.callParts(c); ok {
+				if sig, isSig := info.Types[c.Fun].Type.(*types.Signature); isSig {
+					for i := 0; i < sig.Results().Len(); i++ {
+						ft, _, okF := flatTypes(sig.Results().At(i).Type())
+						if !okF {
+							return unsupS("call with a result outside the fragment", s)
+						}
+						for range ft {
+							dests = append(dests, "LBlank")
+						}
+						if _, isPtr := sig.Results().At(i).Type().(*types.Pointer); isPtr {
+							dests = append(dests, "LBlank")
+						}
+					}
+					return fmt.Sprintf("SCall %s (%s) [%s]", coqStr(name), exprList(args), strings.Join(dests, "; "))
 				}
-				var dests []string
-				if update {
-					dests = append(dests, lvars(recv)...)
-				}
-				for i := 0; i < nres; i++ {
-					dests = append(dests, "LBlank")
-				}
-				t.calls[name] = true
-				return fmt.Sprintf("SCall %s (%s) [%s]", coqStr(name), exprList(args), strings.Join(dests, "; "))
 			}
 		}
 		return unsupS("expression statement", s)
+	case *ast.DeferStmt:
+		if t.ignorable(x.Call) {
+			return "SSkip"
+		}
+		return unsupS("defer", s)
 	case *ast.IncDecStmt:
 		l, ok := t.lval(x.X)
 		ty, ok2 := ityOf(info.Types[x.X].Type)
@@ -968,6 +1230,48 @@ func (t *ftr) stmt1(s ast.Stmt) string {
 		if x.Tok != token.ASSIGN && x.Tok != token.DEFINE {
 			return unsupS("assignment operator", s)
 		}
+		// a call assigned to its destinations (struct-typed values are flattened)
+		if len(x.Rhs) == 1 {
+			if c, ok := ast.Unparen(x.Rhs[0]).(*ast.CallExpr); ok {
+				_, isMeth, _, _, okM := t.methodCall(c)
+				_ = isMeth
+				_, okO := t.oracleCall(c)
+				structDest := false
+				for _, l := range x.Lhs {
+					if _, isS := t.structVar(l); isS {
+						structDest = true
+					}
+				}
+				if len(x.Lhs) > 1 || okO || (okM && structDest) || structDest {
+					if name, args, dests, ok := t.callParts(c); ok {
+						good := true
+						for _, l := range x.Lhs {
+							fd, okD := t.flatDest(l)
+							if !okD {
+								good = false
+								break
+							}
+							dests = append(dests, fd...)
+						}
+						if good {
+							return fmt.Sprintf("SCall %s (%s) [%s]", coqStr(name), exprList(args), strings.Join(dests, "; "))
+						}
+					}
+					return unsupS("call assignment", s)
+				}
+			}
+			// p = &T{...}
+			if len(x.Lhs) == 1 {
+				if obj, isS := t.structVar(x.Lhs[0]); isS {
+					if ns, hasNil := t.nilSlot[obj]; hasNil {
+						if st, okA := t.addrLit(x.Rhs[0], obj, ns); okA {
+							return st
+						}
+					}
+					return unsupS("assignment to a struct variable", s)
+				}
+			}
+		}
 		for _, r := range x.Rhs {
 			t.hoist(r)
 		}
@@ -989,20 +1293,6 @@ func (t *ftr) stmt1(s ast.Stmt) string {
 			}
 			return fmt.Sprintf("SSetMulti [%s] (%s)", strings.Join(ls, "; "), exprList(es))
 		}
-		if len(x.Rhs) == 1 {
-			if c, ok := x.Rhs[0].(*ast.CallExpr); ok {
-				if id, ok := c.Fun.(*ast.Ident); ok {
-					if fobj, ok := info.Uses[id].(*types.Func); ok && fobj.Pkg() == pkg {
-						t.calls[id.Name] = true
-						var es []string
-						for _, a := range c.Args {
-							es = append(es, t.expr(a))
-						}
-						return fmt.Sprintf("SCall %s (%s) [%s]", coqStr(id.Name), exprList(es), strings.Join(ls, "; "))
-					}
-				}
-			}
-		}
 		return unsupS("assignment from a multi-valued expression", s)
 	case *ast.DeclStmt:
 		gd, ok := x.Decl.(*ast.GenDecl)
@@ -1015,6 +1305,9 @@ func (t *ftr) stmt1(s ast.Stmt) string {
 			for i, n := range vs.Names {
 				if obj := info.Defs[n]; obj != nil {
 					if m, isStruct := t.structs[obj]; isStruct && m != nil && len(vs.Values) == 0 {
+						if ns, hasNil := t.nilSlot[obj]; hasNil {
+							parts = append(parts, fmt.Sprintf("SSet (LVar %d) (EB true)", ns))
+						}
 						for _, fs := range t.structOrder[obj] {
 							parts = append(parts, fmt.Sprintf("SSet (LVar %d) (%s)", fs, zeroExpr(t.zero[fs])))
 						}
@@ -1156,6 +1449,50 @@ func (t *ftr) stmt1(s ast.Stmt) string {
 	return unsupS(fmt.Sprintf("statement %T", s), s)
 }
 
+// p = &T{k: v, ...} for an expanded pointer variable p: all operands first, then the stores
+func (t *ftr) addrLit(rhs ast.Expr, obj types.Object, ns int) (string, bool) {
+	u, ok := ast.Unparen(rhs).(*ast.UnaryExpr)
+	if !ok || u.Op != token.AND {
+		return "", false
+	}
+	cl, ok := u.X.(*ast.CompositeLit)
+	if !ok {
+		return "", false
+	}
+	vals := map[string]string{}
+	for _, el := range cl.Elts {
+		kv, ok := el.(*ast.KeyValueExpr)
+		if !ok {
+			return "", false
+		}
+		k, ok := kv.Key.(*ast.Ident)
+		if !ok {
+			return "", false
+		}
+		if _, known := t.structs[obj][k.Name]; !known {
+			return "", false
+		}
+		vals[k.Name] = t.expr(kv.Value)
+	}
+	ls := []string{fmt.Sprintf("LVar %d", ns)}
+	es := []string{"EB false"}
+	st, _, _ := structOf(obj.Type())
+	for i := 0; i < st.NumFields(); i++ {
+		f := st.Field(i)
+		sl, ok := t.structs[obj][f.Name()]
+		if !ok {
+			continue
+		}
+		ls = append(ls, fmt.Sprintf("LVar %d", sl))
+		if v, given := vals[f.Name()]; given {
+			es = append(es, v)
+		} else {
+			es = append(es, zeroExpr(t.zero[sl]))
+		}
+	}
+	return fmt.Sprintf("SSetMulti [%s] (%s)", strings.Join(ls, "; "), exprList(es)), true
+}
+
 func zeroExpr(z string) string {
 	switch z {
 	case "VN 0":
@@ -1240,6 +1577,19 @@ func binaryFn(c *ast.CallExpr, prefix string) (big bool, k int, ok bool) {
 	}
 	ok = true
 	return
+}
+
+func isTimeoutCall(c *ast.CallExpr) bool {
+	sel, ok := c.Fun.(*ast.SelectorExpr)
+	if !ok {
+		return false
+	}
+	pid, ok := sel.X.(*ast.Ident)
+	if !ok {
+		return false
+	}
+	pn, ok := info.Uses[pid].(*types.PkgName)
+	return ok && pn.Imported().Path() == "os" && sel.Sel.Name == "IsTimeout"
 }
 
 func otherError(c *ast.CallExpr) bool {
@@ -1342,6 +1692,11 @@ func (t *ftr) expr(e ast.Expr) string {
 		return unsupE("identifier "+x.Name, e)
 	case *ast.SelectorExpr:
 		if s, ok := t.fieldSlot(x); ok {
+			if obj, _ := t.structVar(x.X); obj != nil {
+				if ns, hasNil := t.nilSlot[obj]; hasNil {
+					return fmt.Sprintf("EDeref (EVar %d) (EVar %d)", ns, s)
+				}
+			}
 			return fmt.Sprintf("EVar %d", s)
 		}
 		return unsupE("selector", e)
@@ -1353,6 +1708,17 @@ func (t *ftr) expr(e ast.Expr) string {
 			return fmt.Sprintf("EOrElse (%s) (%s)", t.expr(x.X), t.expr(x.Y))
 		}
 		if op, ok := cmpOps[x.Op]; ok {
+			// p == nil / p != nil for an expanded pointer variable
+			for _, pair := range [][2]ast.Expr{{x.X, x.Y}, {x.Y, x.X}} {
+				if obj, isS := t.structVar(pair[0]); isS {
+					if id, isID := ast.Unparen(pair[1]).(*ast.Ident); isID && id.Name == "nil" {
+						if ns, hasNil := t.nilSlot[obj]; hasNil && (x.Op == token.EQL || x.Op == token.NEQ) {
+							return fmt.Sprintf("ECmp %s (EVar %d) (EB true)", op, ns)
+						}
+					}
+					return unsupE("comparison of a struct variable", e)
+				}
+			}
 			lt := info.Types[x.X].Type
 			if isFloat(lt) {
 				return unsupE("floating point comparison", e)
@@ -1501,6 +1867,10 @@ func (t *ftr) expr(e ast.Expr) string {
 		if tmp, ok := t.hoisted[x]; ok {
 			return fmt.Sprintf("EVar %d", tmp)
 		}
+		if isTimeoutCall(x) && len(x.Args) == 1 {
+			// os.IsTimeout(err): error value 2 is "an i/o error that reports a timeout"
+			return fmt.Sprintf("ECmp CEq (%s) (EN 2)", t.expr(x.Args[0]))
+		}
 		if otherError(x) {
 			// fmt.Errorf / errors.New: a non-nil error different from every Error constant
 			return "EN 1"
@@ -1626,37 +1996,49 @@ func aliasCheck(fd *ast.FuncDecl, t *ftr) string {
 		otherUse          string
 		badAssign         string
 	}
-	fs := map[types.Object]*facts{}
-	get := func(o types.Object) *facts {
+	fs := map[int]*facts{}
+	get := func(o int) *facts {
 		if fs[o] == nil {
 			fs[o] = &facts{}
 		}
 		return fs[o]
 	}
-	isSliceVar := func(e ast.Expr) (types.Object, bool) {
-		id, ok := e.(*ast.Ident)
-		if !ok {
-			return nil, false
-		}
-		o := info.Uses[id]
-		if o == nil {
-			o = info.Defs[id]
-		}
-		if o == nil {
-			return nil, false
-		}
-		if _, ok := t.slots[o]; !ok {
-			return nil, false
-		}
-		if _, ok := o.Type().Underlying().(*types.Slice); !ok {
-			return nil, false
-		}
-		return o, true
+	// a slice-typed variable: local, parameter, or field of an expanded struct variable
+	isSliceVar := func(e ast.Expr) (int, bool) {
+		return t.sliceSlot(e)
 	}
-	allowed := map[*ast.Ident]bool{} // occurrences already classified as harmless
+	isVarObj := func(e ast.Expr) (types.Object, bool) {
+		// identity for isFreshExpr: slots are wrapped as objects through a table
+		return nil, false
+	}
+	_ = isVarObj
+	allowed := map[ast.Expr]bool{} // occurrences already classified as harmless
 	var bad string
-	fresh := func(rhs ast.Expr, target types.Object) bool {
-		return isFreshExpr(rhs, target, func(e ast.Expr) (types.Object, bool) { return isSliceVar(e) })
+	fresh := func(rhs ast.Expr, target int) bool {
+		switch r := ast.Unparen(rhs).(type) {
+		case *ast.CompositeLit:
+			return true
+		case *ast.Ident:
+			return r.Name == "nil"
+		case *ast.CallExpr:
+			if id, ok := r.Fun.(*ast.Ident); ok {
+				if _, isB := info.Uses[id].(*types.Builtin); isB {
+					if id.Name == "make" {
+						return true
+					}
+					if id.Name == "append" && len(r.Args) > 0 {
+						if o, ok := isSliceVar(r.Args[0]); ok && o == target {
+							return true
+						}
+					}
+					return false
+				}
+				if fobj, ok := info.Uses[id].(*types.Func); ok && fobj.Pkg() == pkg && freshFns[id.Name] {
+					return true
+				}
+			}
+		}
+		return false
 	}
 	ast.Inspect(fd.Body, func(n ast.Node) bool {
 		switch x := n.(type) {
@@ -1665,17 +2047,17 @@ func aliasCheck(fd *ast.FuncDecl, t *ftr) string {
 				if ie, ok := l.(*ast.IndexExpr); ok {
 					if o, ok := isSliceVar(ie.X); ok {
 						get(o).written = true
-						allowed[ie.X.(*ast.Ident)] = true
+						allowed[ie.X] = true
 					}
 				}
 				if o, ok := isSliceVar(l); ok {
-					allowed[l.(*ast.Ident)] = true
+					allowed[l] = true
 					if len(x.Lhs) == len(x.Rhs) && (x.Tok == token.ASSIGN || x.Tok == token.DEFINE) {
 						if !fresh(x.Rhs[i], o) {
 							get(o).badAssign = "assigned from a value that is not a fresh allocation"
 						}
 					} else {
-						get(o).badAssign = "assigned by an unsupported form"
+						get(o).badAssign = "assigned by a multi-valued or compound form"
 					}
 				}
 			}
@@ -1683,7 +2065,7 @@ func aliasCheck(fd *ast.FuncDecl, t *ftr) string {
 			if ie, ok := x.X.(*ast.IndexExpr); ok {
 				if o, ok := isSliceVar(ie.X); ok {
 					get(o).written = true
-					allowed[ie.X.(*ast.Ident)] = true
+					allowed[ie.X] = true
 				}
 			}
 		case *ast.ValueSpec:
@@ -1707,7 +2089,7 @@ func aliasCheck(fd *ast.FuncDecl, t *ftr) string {
 			if _, _, ok := binaryFn(x, "Put"); ok && len(x.Args) > 0 {
 				if o, ok := isSliceVar(x.Args[0]); ok {
 					get(o).written = true
-					allowed[x.Args[0].(*ast.Ident)] = true
+					allowed[x.Args[0]] = true
 				}
 			}
 			if id, ok := x.Fun.(*ast.Ident); ok {
@@ -1715,27 +2097,29 @@ func aliasCheck(fd *ast.FuncDecl, t *ftr) string {
 					switch id.Name {
 					case "len":
 						if _, ok := isSliceVar(x.Args[0]); ok {
-							allowed[x.Args[0].(*ast.Ident)] = true
+							allowed[x.Args[0]] = true
 						}
 					case "append":
 						if o, ok := isSliceVar(x.Args[0]); ok {
 							get(o).appended = true
 							// must be a self-append: checked through the assignment forms
-							allowed[x.Args[0].(*ast.Ident)] = true
+							allowed[x.Args[0]] = true
 						} else {
-							bad = "append to something that is not a local variable"
+							bad = "append to something that is not a variable"
 						}
+					case "copy":
+						bad = "copy"
 					}
 				}
 			}
 		case *ast.IndexExpr:
 			if _, ok := isSliceVar(x.X); ok {
-				allowed[x.X.(*ast.Ident)] = true
+				allowed[x.X] = true
 			}
 		case *ast.ReturnStmt:
 			for _, r := range x.Results {
 				if _, ok := isSliceVar(r); ok {
-					allowed[r.(*ast.Ident)] = true
+					allowed[r] = true
 				}
 			}
 		}
@@ -1778,20 +2162,74 @@ func aliasCheck(fd *ast.FuncDecl, t *ftr) string {
 		}
 		return true
 	})
-	// remaining occurrences
+	// remaining occurrences of slice variables
+	var visit func(n ast.Node) bool
+	visit = func(n ast.Node) bool {
+		e, ok := n.(ast.Expr)
+		if !ok {
+			return true
+		}
+		if allowed[e] {
+			return false
+		}
+		switch x := e.(type) {
+		case *ast.Ident:
+			if _, isDef := info.Defs[x]; isDef {
+				return true
+			}
+			if o, ok := isSliceVar(x); ok {
+				get(o).otherUse = fmt.Sprintf("used as a value at %s", fset.Position(x.Pos()))
+			}
+		case *ast.SelectorExpr:
+			if o, ok := isSliceVar(x); ok {
+				get(o).otherUse = fmt.Sprintf("used as a value at %s", fset.Position(x.Pos()))
+				return false
+			}
+		}
+		return true
+	}
+	ast.Inspect(fd.Body, visit)
+	// a struct variable passed whole to a call or assigned whole shares its slice fields
 	ast.Inspect(fd.Body, func(n ast.Node) bool {
 		id, ok := n.(*ast.Ident)
-		if !ok || allowed[id] {
+		if !ok {
 			return true
 		}
-		if _, isDef := info.Defs[id]; isDef {
+		obj := info.Uses[id]
+		if obj == nil {
 			return true
 		}
-		if o, ok := isSliceVar(id); ok {
-			get(o).otherUse = fmt.Sprintf("used as a value at %s", fset.Position(id.Pos()))
+		if m, isS := t.structs[obj]; isS && m != nil {
+			for _, sl := range t.structOrder[obj] {
+				if t.zero[sl] == "VL []" {
+					// occurrences of the variable that are not a field selection
+					_ = sl
+				}
+			}
 		}
 		return true
 	})
+	wholeUse := map[types.Object]bool{}
+	ast.Inspect(fd.Body, func(n ast.Node) bool {
+		switch x := n.(type) {
+		case *ast.SelectorExpr:
+			if _, ok := t.structVar(x.X); ok {
+				return false // a field selection, not a use of the whole variable
+			}
+		case *ast.Ident:
+			if obj, ok := t.structVar(x); ok {
+				wholeUse[obj] = true
+			}
+		}
+		return true
+	})
+	for obj := range wholeUse {
+		for _, sl := range t.structOrder[obj] {
+			if t.zero[sl] == "VL []" {
+				get(sl).otherUse = "its struct variable " + obj.Name() + " is used as a whole (passed or assigned)"
+			}
+		}
+	}
 	if bad != "" {
 		return "aliasing discipline: " + bad
 	}
@@ -1799,14 +2237,15 @@ func aliasCheck(fd *ast.FuncDecl, t *ftr) string {
 		if !f.written && !f.appended {
 			continue
 		}
-		if s := t.slots[o]; s < t.nparams {
-			return "aliasing discipline: parameter " + o.Name() + " is written or appended to"
+		name := t.names[o]
+		if o < t.nparams {
+			return "aliasing discipline: parameter " + name + " is written or appended to"
 		}
 		if f.badAssign != "" {
-			return "aliasing discipline: " + o.Name() + " " + f.badAssign
+			return "aliasing discipline: " + name + " " + f.badAssign
 		}
 		if f.written && f.otherUse != "" {
-			return "aliasing discipline: " + o.Name() + " is written through an index and " + f.otherUse
+			return "aliasing discipline: " + name + " is written through an index and " + f.otherUse
 		}
 	}
 	return ""
